@@ -170,7 +170,7 @@ def run(ctx):
     rng = random.Random(ctx.seed)
     samples = []
     B = builders()
-    per = 25 if ctx.quick else 300
+    per = 25 if ctx.quick else 1500
     # opcodes interleaved (what one PDU leaves behind must not show in the next); every other sample is handled by a
     # caller that edits, after use, the objects it built and the objects it got back
     for rnd in range(per):
